@@ -1,6 +1,6 @@
 """hypercorn/protocol/ws_stream.py: WebsocketBuffer (C10), Handshake (C11), WSStream (C03, C05,
 C10, C11, C12)."""
-from pyvc.contracts import Callback, cls, fn
+from pyvc.contracts import Callback, cls, fn, specfn
 
 M = "hypercorn.protocol.ws_stream:"
 WS = M + "WSStream"
@@ -46,14 +46,47 @@ cls(HK, fields={"accepted": "bool", "http_version": "str", "connection_tokens": 
                 "subprotocols": "opt strs", "upgrade": "opt bstr", "version": "opt bstr"},
     inv=[], rely=[("Handshake.rely.accepted-monotone", "implies(old(self.accepted), self.accepted)", "C11")])
 
+# last_ci(hs, n, name): value of the last of the first n header lines whose name, lower-cased, is
+# `name` (b'' if none); seen_ci: there is such a line.  The handshake is read from the request's
+# header list whatever the case of the names (with h11_pass_raw_headers the client's spelling --
+# Sec-WebSocket-Key, Upgrade ... -- reaches the stream unchanged).
+specfn("last_ci", ["hs:hdrs", "n:int", "name:bstr"], rec="n", returns="bstr", base="b''",
+       step="ite(hs[n - 1][0].lower() == name, hs[n - 1][1], last_ci(hs, n - 1, name))")
+specfn("seen_ci", ["hs:hdrs", "n:int", "name:bstr"], rec="n", returns="bool", base="False",
+       step="hs[n - 1][0].lower() == name or seen_ci(hs, n - 1, name)")
+
+
+def _hk_field(field, name, at):
+    return ("(self.%s is None) == (not seen_ci(headers, %s, %s)) and implies(self.%s is not None, self.%s == last_ci(headers, %s, %s))" % (field, at, name, field, field, at, name))
+
+
+def _hk_present(field, name, at):
+    return "(self.%s is None) == (not seen_ci(headers, %s, %s))" % (field, at, name)
+
+
+_HK_ALL = lambda at: " and ".join([_hk_field("key", "b'sec-websocket-key'", at), _hk_field("version", "b'sec-websocket-version'", at), _hk_field("upgrade", "b'upgrade'", at),
+                                   _hk_present("connection_tokens", "b'connection'", at), _hk_present("extensions", "b'sec-websocket-extensions'", at),
+                                   _hk_present("subprotocols", "b'sec-websocket-protocol'", at)])
+
 fn(HK + ".__init__", params={"headers": "hdrs", "http_version": "str"},
    # wsproto's split_comma_header decodes the value as ASCII: a Connection / Sec-WebSocket-Protocol /
    # Sec-WebSocket-Extensions value with a byte over 0x7f raises (finding F4j: it reaches the
    # connection handler through WSStream.handle)
    raises={"UnicodeDecodeError": None},
-   loops={0: {"locals": {"name": "bstr", "value": "bstr"}}},
-   ensures=[("Handshake.init", "not self.accepted and self.http_version == http_version", "C11")],
-   # trusted one-liner about the header scan (an existential loop invariant is out of reach)
+   loops={0: {"locals": {"name": "bstr", "value": "bstr"},
+              "invariant": [("C11.handshake.scan.key", _hk_field("key", "b'sec-websocket-key'", "_i"), "C11,C13"),
+                            ("C11.handshake.scan.version", _hk_field("version", "b'sec-websocket-version'", "_i"), "C11,C13"),
+                            ("C11.handshake.scan.upgrade", _hk_field("upgrade", "b'upgrade'", "_i"), "C11,C13"),
+                            ("C11.handshake.scan.connection", _hk_present("connection_tokens", "b'connection'", "_i"), "C11,C13"),
+                            ("C11.handshake.scan.extensions", _hk_present("extensions", "b'sec-websocket-extensions'", "_i"), "C11,C13"),
+                            ("C11.handshake.scan.subprotocols", _hk_present("subprotocols", "b'sec-websocket-protocol'", "_i"), "C11,C13")]}},
+   ensures=[("Handshake.init", "not self.accepted and self.http_version == http_version", "C11"),
+            # C11 / C13 "a GET with Upgrade: websocket starts a WebSocket": key, version and upgrade are
+            # the values of the last header line of that name, compared without regard to case; the
+            # three list-valued fields are present exactly when their header is
+            ("C11.handshake.fields", _HK_ALL("len(headers)"), "C11,C13")],
+   # trusted one-liner relating the two spellings of "there is an Upgrade header" (has_header is
+   # what the callers' preconditions use)
    assumed_ensures=[("Handshake.init.upgrade-found", "implies(has_header(headers, b'upgrade'), self.upgrade is not None)", "C11")],
    props=("C11",))
 
